@@ -41,7 +41,9 @@ Theorem C13_crash_consistent : forall ops d n k o, Consistent d -> history_ok d 
   Consistent recovered /\ (recovered = before \/ recovered = durable_after before (actions_of o)).
 Proof. exact crash_consistent. Qed.
 
-(* PrepareCache: the tip the height index names exists, the consensus store is at that tip, nothing is indexed above it *)
+(* what a restart relies on (Chain.PrepareCache itself is not modelled: it reads the tip from the height index; the harness
+   compares the restarted node's tip with the recovered index and tip mark): the tip the height index names exists, the consensus
+   store is at that tip, nothing is indexed above it *)
 Theorem C13_restart_tip_matches : forall d, Consistent d ->
   exists t id, d KTipMark = Some t /\ d (KIdx t) = Some id /\ d (KHeader id) = Some t /\ forall k, d (KIdx (t + 1 + k)) = None.
 Proof. exact restart_tip_matches. Qed.
